@@ -21,4 +21,5 @@ Inductive bmsg :=
 | BranchRoot (u : nat)
 | ToggleParentSearch (b : bool).
 
-Inductive reason := REof | RRead | RWrite | RTimeout | RRequested.
+(* connection.py CloseReason *)
+Inductive reason := REof | RRead | RWrite | RTimeout | RRequested | RConnectFailed | RUnknown.
